@@ -430,6 +430,17 @@ def main():
         def make_run(chooser):
             return runner(sc, chooser)
 
+        if sc.get("fixed_schedule") is not None:
+            fixed = sc["fixed_schedule"]
+
+            def chooser(i, runnable, current, fixed=fixed):
+                if i < len(fixed) and fixed[i] in runnable:
+                    return fixed[i]
+                return current if current is not None else runnable[0]
+            result, steps = runner(sc, chooser)
+            result["schedule"] = [s_[1] for s_ in steps]
+            out.append({"scenario": sc, "runs": [result], "exhaustive": False})
+            continue
         t0 = time.time()
         n = 0
         for choices, result in S.explore(make_run, sc.get("max_pre", 2), sc.get("cap", 300), sc.get("seed", 0), sc.get("random", 0)):
